@@ -178,7 +178,7 @@ func (e *Engine) verify2(t *Target) {
 		return
 	}
 	for i, fs := range fins {
-		if i < 4 || tier == "thorough" {
+		if i < 40 || tier == "thorough" {
 			e.cover(fs, "cover.exit")
 		}
 		if c := e.contracts[fn.String()]; c != nil {
